@@ -244,9 +244,13 @@ impl P11 {
             vec![V::Char('a'), V::Char('b'), V::Char('é')],
             vec![V::Byte(0), V::Byte(128), V::Byte(255)],
             vec![V::Int(1), V::Float(1.5), V::Int(2), V::Float(-1.0)],
+            // integer limits and the neighbours of 2^53, where a conversion to double merges distinct integers
+            vec![V::Int(i64::MIN), V::Int(-(1 << 53) - 1), V::Int(-(1 << 53)), V::Int(1 << 53), V::Int((1 << 53) + 1), V::Int(i64::MAX - 1), V::Int(i64::MAX)],
+            vec![V::Float(f64::NEG_INFINITY), V::Float(-1e308), V::Float(-5e-324), V::Float(5e-324), V::Float(1e308), V::Float(f64::INFINITY)],
+            vec![V::Int((1 << 53) + 1), V::Float(9007199254740992.0), V::Int((1 << 53) + 2), V::Float(-9007199254740994.0), V::Int(-(1 << 53) - 1)],
         ];
         for d in &domains {
-            for n in 0..=5usize {
+            for n in 0..=(if d.len() <= 4 { 5usize } else { 4 }) {
                 for i in 0..d.len().pow(n as u32) {
                     let mut v = vec![];
                     let mut x = i;
@@ -338,7 +342,7 @@ impl Property for P11 {
         }
     }
     fn rule(&self) -> String {
-        format!("the {} pure builtins x arity 0..3 x every tuple of {} argument kinds (incl. three array flavours, map, closure, builtin, error object), called through the real VM with injected arguments; then every documented signature x boundary values (all singles and pairs of 69 values, a reduced cube for 3 arguments); laws over completely enumerated domains: int(str(n)) == n for |n| <= 4096 and integer limits, float(str(x)) == x for k/8 with |k| <= 4096 and extreme finite floats, the three UTF-8/chars round trips for all strings of length <= 3 over {{a, é, €, 𝄞, NUL, space}}, decode_utf8 on all byte arrays of length <= 3 over 8 bytes, sort on all arrays of length <= 5 over 6 mutually comparable domains (ints, floats, strings, chars, bytes, an int/float mix) plus long arrays. Oracle: the contract table mc/src/refbuiltins.rs transcribed from docs/language/builtins.md (documented kinds => documented result and argument mutation; anything else => runtime error whose message starts with the builtin's name)", PURE.len(), self.kinds.len())
+        format!("the {} pure builtins x arity 0..3 x every tuple of {} argument kinds (incl. three array flavours, map, closure, builtin, error object), called through the real VM with injected arguments; then every documented signature x boundary values (all singles and pairs of 69 values, a reduced cube for 3 arguments); laws over completely enumerated domains: int(str(n)) == n for |n| <= 4096 and integer limits, float(str(x)) == x for k/8 with |k| <= 4096 and extreme finite floats, the three UTF-8/chars round trips for all strings of length <= 3 over {{a, é, €, 𝄞, NUL, space}}, decode_utf8 on all byte arrays of length <= 3 over 8 bytes, sort on all arrays of length <= 5 (<= 4 for the larger domains) over 9 mutually comparable domains (ints, floats, strings, chars, bytes, an int/float mix, the integer limits with the neighbours of 2^53, extreme floats, large integers mixed with the doubles next to them) plus long arrays. Oracle: the contract table mc/src/refbuiltins.rs transcribed from docs/language/builtins.md (documented kinds => documented result and argument mutation; anything else => runtime error whose message starts with the builtin's name)", PURE.len(), self.kinds.len())
     }
     fn bounds(&self) -> Value {
         json!({"cases": self.cases.len(), "builtins": PURE.len(), "argument_kinds": self.kinds.len()})
